@@ -1014,4 +1014,298 @@ theorem initActive_fillsOk (xs : List α) : ∀ (cs : List (Chain σ α)) (k : N
     · exact h c (List.mem_cons_self ..)
     · exact initActive_fillsOk xs cs (k + 1) (fun c' hc' => h c' (List.mem_cons_of_mem _ hc')) B hB
 
+/-! ## `Split.run` with branches of all four types: a fill_compute branch yields what it yields alone -/
+
+section mixed
+variable {σ α : Type}
+set_option linter.unusedSimpArgs false
+
+theorem andThen_term_none {β : Type} (a b : Strm β) (h : (a.andThen b).term = none) :
+    a.term = none ∧ b.term = none := by
+  obtain ⟨av, at_⟩ := a
+  cases at_ with
+  | some e => simp [Strm.andThen] at h
+  | none => exact ⟨rfl, by simpa [Strm.andThen] using h⟩
+
+theorem idx_src (j : Nat) (out : Strm α) : (MActive.src j out : MActive σ α).idx = j := rfl
+theorem idx_seq (j : Nat) (run : Stage α) : (MActive.seq j run : MActive σ α).idx = j := rfl
+theorem idx_fc (B : Active σ α) : (MActive.fc B).idx = B.idx := rfl
+theorem idx_fr (B : Active σ α) : (MActive.fr B).idx = B.idx := rfl
+
+theorem fail_term_ne_none {β : Type} (e : Exc) : (Strm.fail e : Strm β).term ≠ none := by
+  simp [Strm.fail]
+
+/-- one buffer: if nothing raises, the branches with index `i` are processed as they are processed alone -/
+theorem processBufM_filter (i : Nat) (buf : List α) :
+    ∀ (act : List (MActive σ α)), (processBufM buf act).2.term = none →
+      (processBufM buf (act.filter (fun B => B.idx == i))).1 = (processBufM buf act).1.filter (fun B => B.idx == i) ∧
+      project i (processBufM buf (act.filter (fun B => B.idx == i))).2 = project i (processBufM buf act).2 ∧
+      (processBufM buf (act.filter (fun B => B.idx == i))).2.term = none
+  | [], _ => by simp [processBufM, Strm.nil]
+  | .src j out :: rest, h => by
+    simp only [processBufM] at h
+    obtain ⟨h1, h2⟩ := andThen_term_none _ _ h
+    obtain ⟨ih1, ih2, ih3⟩ := processBufM_filter i buf rest h2
+    by_cases hp : (j == i) = true
+    · simp only [List.filter_cons, idx_src, idx_seq, idx_fc, idx_fr, hp, if_true, processBufM]
+      refine ⟨ih1, ?_, ?_⟩
+      · rw [project_andThen _ _ _ h1, project_andThen _ _ _ h1, ih2]
+      · rw [andThen_term _ _ h1]; exact ih3
+    · have hp' : (j == i) = false := by simpa using hp
+      simp only [List.filter_cons, idx_src, idx_seq, idx_fc, idx_fr, hp', Bool.false_eq_true, if_false, processBufM]
+      refine ⟨ih1, ?_, ih3⟩
+      rw [project_andThen _ _ _ h1, project_tag_ne i j hp', List.nil_append]
+      exact ih2
+  | .seq j run :: rest, h => by
+    simp only [processBufM] at h
+    obtain ⟨h1, h2⟩ := andThen_term_none _ _ h
+    obtain ⟨ih1, ih2, ih3⟩ := processBufM_filter i buf rest h2
+    by_cases hp : (j == i) = true
+    · simp only [List.filter_cons, idx_src, idx_seq, idx_fc, idx_fr, hp, if_true, processBufM]
+      refine ⟨by rw [ih1], ?_, ?_⟩
+      · rw [project_andThen _ _ _ h1, project_andThen _ _ _ h1, ih2]
+      · rw [andThen_term _ _ h1]; exact ih3
+    · have hp' : (j == i) = false := by simpa using hp
+      simp only [List.filter_cons, idx_src, idx_seq, idx_fc, idx_fr, hp', Bool.false_eq_true, if_false, processBufM]
+      refine ⟨ih1, ?_, ih3⟩
+      rw [project_andThen _ _ _ h1, project_tag_ne i j hp', List.nil_append]
+      exact ih2
+  | .fc B :: rest, h => by
+    simp only [processBufM] at h
+    cases hf : feedList (chainSink B.chain.acc B.chain.pre) B.st buf with
+    | err e =>
+      rw [hf] at h
+      exact absurd h (fail_term_ne_none e)
+    | ok st' =>
+      rw [hf] at h
+      simp only at h
+      obtain ⟨ih1, ih2, ih3⟩ := processBufM_filter i buf rest h
+      by_cases hp : (B.idx == i) = true
+      · simp only [List.filter_cons, idx_src, idx_seq, idx_fc, idx_fr, hp, if_true, processBufM, hf]
+        exact ⟨by rw [ih1], ih2, ih3⟩
+      · have hp' : (B.idx == i) = false := by simpa using hp
+        simp only [List.filter_cons, idx_src, idx_seq, idx_fc, idx_fr, hp', Bool.false_eq_true, if_false, processBufM, hf]
+        exact ⟨ih1, ih2, ih3⟩
+    | stop st' =>
+      rw [hf] at h
+      simp only at h
+      obtain ⟨h1, h2⟩ := andThen_term_none _ _ h
+      obtain ⟨ih1, ih2, ih3⟩ := processBufM_filter i buf rest h2
+      by_cases hp : (B.idx == i) = true
+      · simp only [List.filter_cons, idx_src, idx_seq, idx_fc, idx_fr, hp, if_true, processBufM, hf]
+        refine ⟨ih1, ?_, ?_⟩
+        · rw [project_andThen _ _ _ h1, project_andThen _ _ _ h1, ih2]
+        · rw [andThen_term _ _ h1]; exact ih3
+      · have hp' : (B.idx == i) = false := by simpa using hp
+        simp only [List.filter_cons, idx_src, idx_seq, idx_fc, idx_fr, hp', Bool.false_eq_true, if_false, processBufM, hf]
+        refine ⟨ih1, ?_, ih3⟩
+        rw [project_andThen _ _ _ h1, project_tag_ne i B.idx hp', List.nil_append]
+        exact ih2
+  | .fr B :: rest, h => by
+    simp only [processBufM] at h
+    cases hf : feedList (chainSink B.chain.acc B.chain.pre) B.st buf with
+    | err e =>
+      rw [hf] at h
+      exact absurd h (fail_term_ne_none e)
+    | ok st' =>
+      rw [hf] at h
+      simp only at h
+      obtain ⟨h1, h2⟩ := andThen_term_none _ _ h
+      obtain ⟨ih1, ih2, ih3⟩ := processBufM_filter i buf rest h2
+      by_cases hp : (B.idx == i) = true
+      · simp only [List.filter_cons, idx_src, idx_seq, idx_fc, idx_fr, hp, if_true, processBufM, hf]
+        refine ⟨by rw [ih1], ?_, ?_⟩
+        · rw [project_andThen _ _ _ h1, project_andThen _ _ _ h1, ih2]
+        · rw [andThen_term _ _ h1]; exact ih3
+      · have hp' : (B.idx == i) = false := by simpa using hp
+        simp only [List.filter_cons, idx_src, idx_seq, idx_fc, idx_fr, hp', Bool.false_eq_true, if_false, processBufM, hf]
+        refine ⟨ih1, ?_, ih3⟩
+        rw [project_andThen _ _ _ h1, project_tag_ne i B.idx hp', List.nil_append]
+        exact ih2
+    | stop st' =>
+      rw [hf] at h
+      simp only at h
+      obtain ⟨h1, h2⟩ := andThen_term_none _ _ h
+      obtain ⟨ih1, ih2, ih3⟩ := processBufM_filter i buf rest h2
+      by_cases hp : (B.idx == i) = true
+      · simp only [List.filter_cons, idx_src, idx_seq, idx_fc, idx_fr, hp, if_true, processBufM, hf]
+        refine ⟨ih1, ?_, ?_⟩
+        · rw [project_andThen _ _ _ h1, project_andThen _ _ _ h1, ih2]
+        · rw [andThen_term _ _ h1]; exact ih3
+      · have hp' : (B.idx == i) = false := by simpa using hp
+        simp only [List.filter_cons, idx_src, idx_seq, idx_fc, idx_fr, hp', Bool.false_eq_true, if_false, processBufM, hf]
+        refine ⟨ih1, ?_, ih3⟩
+        rw [project_andThen _ _ _ h1, project_tag_ne i B.idx hp', List.nil_append]
+        exact ih2
+
+theorem finalM_filter (i : Nat) (e : Bool) :
+    ∀ (act : List (MActive σ α)), (finalM e act).term = none →
+      project i (finalM e (act.filter (fun B => B.idx == i))) = project i (finalM e act) ∧
+      (finalM e (act.filter (fun B => B.idx == i))).term = none
+  | [], _ => by simp [finalM, Strm.nil]
+  | .src j out :: rest, h => by
+    simp only [finalM] at h
+    obtain ⟨h1, h2⟩ := andThen_term_none _ _ h
+    obtain ⟨ih1, ih2⟩ := finalM_filter i e rest h2
+    by_cases hp : (j == i) = true
+    · simp only [List.filter_cons, idx_src, idx_seq, idx_fc, idx_fr, hp, if_true, finalM]
+      exact ⟨by rw [project_andThen _ _ _ h1, project_andThen _ _ _ h1, ih1], by rw [andThen_term _ _ h1]; exact ih2⟩
+    · have hp' : (j == i) = false := by simpa using hp
+      simp only [List.filter_cons, idx_src, idx_seq, idx_fc, idx_fr, hp', Bool.false_eq_true, if_false, finalM]
+      exact ⟨by rw [project_andThen _ _ _ h1, project_tag_ne i j hp', List.nil_append]; exact ih1, ih2⟩
+  | .fc B :: rest, h => by
+    simp only [finalM] at h
+    obtain ⟨h1, h2⟩ := andThen_term_none _ _ h
+    obtain ⟨ih1, ih2⟩ := finalM_filter i e rest h2
+    by_cases hp : (B.idx == i) = true
+    · simp only [List.filter_cons, idx_src, idx_seq, idx_fc, idx_fr, hp, if_true, finalM]
+      exact ⟨by rw [project_andThen _ _ _ h1, project_andThen _ _ _ h1, ih1], by rw [andThen_term _ _ h1]; exact ih2⟩
+    · have hp' : (B.idx == i) = false := by simpa using hp
+      simp only [List.filter_cons, idx_src, idx_seq, idx_fc, idx_fr, hp', Bool.false_eq_true, if_false, finalM]
+      exact ⟨by rw [project_andThen _ _ _ h1, project_tag_ne i B.idx hp', List.nil_append]; exact ih1, ih2⟩
+  | .fr B :: rest, h => by
+    cases e with
+    | false =>
+      simp only [finalM, Bool.false_eq_true, if_false] at h
+      obtain ⟨ih1, ih2⟩ := finalM_filter i false rest h
+      by_cases hp : (B.idx == i) = true
+      · simp only [List.filter_cons, idx_src, idx_seq, idx_fc, idx_fr, hp, if_true, finalM, Bool.false_eq_true, if_false]
+        exact ⟨ih1, ih2⟩
+      · have hp' : (B.idx == i) = false := by simpa using hp
+        simp only [List.filter_cons, idx_src, idx_seq, idx_fc, idx_fr, hp', Bool.false_eq_true, if_false, finalM]
+        exact ⟨ih1, ih2⟩
+    | true =>
+      simp only [finalM, if_true] at h
+      obtain ⟨h1, h2⟩ := andThen_term_none _ _ h
+      obtain ⟨ih1, ih2⟩ := finalM_filter i true rest h2
+      by_cases hp : (B.idx == i) = true
+      · simp only [List.filter_cons, idx_src, idx_seq, idx_fc, idx_fr, hp, if_true, finalM]
+        exact ⟨by rw [project_andThen _ _ _ h1, project_andThen _ _ _ h1, ih1], by rw [andThen_term _ _ h1]; exact ih2⟩
+      · have hp' : (B.idx == i) = false := by simpa using hp
+        simp only [List.filter_cons, idx_src, idx_seq, idx_fc, idx_fr, hp', Bool.false_eq_true, if_false, finalM, if_true]
+        exact ⟨by rw [project_andThen _ _ _ h1, project_tag_ne i B.idx hp', List.nil_append]; exact ih1, ih2⟩
+  | .seq j run :: rest, h => by
+    cases e with
+    | false =>
+      simp only [finalM, Bool.false_eq_true, if_false] at h
+      obtain ⟨ih1, ih2⟩ := finalM_filter i false rest h
+      by_cases hp : (j == i) = true
+      · simp only [List.filter_cons, idx_src, idx_seq, idx_fc, idx_fr, hp, if_true, finalM, Bool.false_eq_true, if_false]
+        exact ⟨ih1, ih2⟩
+      · have hp' : (j == i) = false := by simpa using hp
+        simp only [List.filter_cons, idx_src, idx_seq, idx_fc, idx_fr, hp', Bool.false_eq_true, if_false, finalM]
+        exact ⟨ih1, ih2⟩
+    | true =>
+      simp only [finalM, if_true] at h
+      obtain ⟨h1, h2⟩ := andThen_term_none _ _ h
+      obtain ⟨ih1, ih2⟩ := finalM_filter i true rest h2
+      by_cases hp : (j == i) = true
+      · simp only [List.filter_cons, idx_src, idx_seq, idx_fc, idx_fr, hp, if_true, finalM]
+        exact ⟨by rw [project_andThen _ _ _ h1, project_andThen _ _ _ h1, ih1], by rw [andThen_term _ _ h1]; exact ih2⟩
+      · have hp' : (j == i) = false := by simpa using hp
+        simp only [List.filter_cons, idx_src, idx_seq, idx_fc, idx_fr, hp', Bool.false_eq_true, if_false, finalM, if_true]
+        exact ⟨by rw [project_andThen _ _ _ h1, project_tag_ne i j hp', List.nil_append]; exact ih1, ih2⟩
+
+/-- the whole loop: if `Split.run` completes, its output restricted to branch `i` is what the loop yields with the
+branches of index `i` alone -/
+theorem splitLoopM_filter (i : Nat) : ∀ (bufs : List (List α)) (e : Bool) (act : List (MActive σ α)),
+    (splitLoopM e bufs act).term = none →
+      project i (splitLoopM e bufs (act.filter (fun B => B.idx == i))) = project i (splitLoopM e bufs act)
+  | [], e, act, h => by
+    simp only [splitLoopM] at h ⊢
+    exact (finalM_filter i e act h).1
+  | buf :: bufs, e, act, h => by
+    simp only [splitLoopM] at h ⊢
+    obtain ⟨h1, h2⟩ := andThen_term_none _ _ h
+    obtain ⟨g1, g2, g3⟩ := processBufM_filter i buf act h1
+    rw [project_andThen _ _ _ h1, project_andThen _ _ _ g3, g1, g2, splitLoopM_filter i bufs false _ h2]
+
+theorem splitLoopM_no_active : ∀ (bufs : List (List α)) (e : Bool),
+    splitLoopM e bufs ([] : List (MActive σ α)) = .nil
+  | [], e => rfl
+  | buf :: bufs, e => by
+    simp only [splitLoopM, processBufM, Strm.nil_andThen]
+    exact splitLoopM_no_active bufs false
+
+/-- a single fill_compute branch: the loop yields what the `FillComputeSeq` yields alone -/
+theorem splitLoopM_single_fc : ∀ (bufs : List (List α)) (e : Bool) (B : Active σ α),
+    splitLoopM e bufs [.fc B] = tag B.idx (B.rest bufs)
+  | [], e, B => by
+    simp only [splitLoopM, finalM, Strm.andThen_nil, Active.rest, List.flatten_nil, feedList, finish]
+  | buf :: bufs, e, B => by
+    simp only [splitLoopM, processBufM, Active.rest, List.flatten_cons, feedList_append]
+    cases hf : feedList (chainSink B.chain.acc B.chain.pre) B.st buf with
+    | err e' => simp [finish]
+    | ok st' =>
+      simp only [Strm.nil_andThen]
+      exact splitLoopM_single_fc bufs false { B with st := st' }
+    | stop st' =>
+      simp only [Strm.andThen_nil, splitLoopM_no_active, finish]
+
+/-- a single source: its flow (with the first buffer, or at the end when the flow was empty) -/
+theorem splitLoopM_single_src (j : Nat) (out : Strm α) : ∀ (bufs : List (List α)) (e : Bool),
+    splitLoopM e bufs [(.src j out : MActive σ α)] = tag j out
+  | [], e => by simp only [splitLoopM, finalM, Strm.andThen_nil]
+  | buf :: bufs, e => by
+    simp only [splitLoopM, processBufM, Strm.andThen_nil, splitLoopM_no_active]
+
+theorem activate_idx (b : Branch σ α) (i : Nat) : (b.activate i).idx = i := by
+  cases b <;> rfl
+
+theorem initActiveM_idx_ge : ∀ (bs : List (Branch σ α)) (k : Nat), ∀ B ∈ initActiveM k bs, k ≤ B.idx
+  | [], _, B, h => by simp [initActiveM] at h
+  | b :: bs, k, B, h => by
+    simp only [initActiveM, List.mem_cons] at h
+    rcases h with rfl | h
+    · rw [activate_idx]; exact Nat.le_refl _
+    · exact Nat.le_of_succ_le (initActiveM_idx_ge bs (k + 1) B h)
+
+theorem initActiveM_filter : ∀ (bs : List (Branch σ α)) (k i : Nat) (hi : i < bs.length),
+    (initActiveM k bs).filter (fun B => B.idx == k + i) = [bs[i].activate (k + i)]
+  | [], _, _, hi => by simp at hi
+  | b :: bs, k, 0, _ => by
+    have hnone : (initActiveM (k + 1) bs).filter (fun B => B.idx == k) = [] := by
+      apply List.filter_eq_nil_iff.mpr
+      intro B hB
+      have := initActiveM_idx_ge bs (k + 1) B hB
+      simp only [beq_iff_eq]
+      omega
+    simp only [initActiveM, List.filter_cons, Nat.add_zero, activate_idx, beq_self_eq_true, if_true,
+      List.getElem_cons_zero, hnone]
+  | b :: bs, k, i + 1, hi => by
+    have hi' : i < bs.length := by simpa using hi
+    have ih := initActiveM_filter bs (k + 1) i hi'
+    have hk : k + 1 + i = k + (i + 1) := by omega
+    rw [hk] at ih
+    have hne : (k == k + (i + 1)) = false := by simp
+    simp only [initActiveM, List.filter_cons, activate_idx, hne, Bool.false_eq_true, if_false,
+      List.getElem_cons_succ]
+    exact ih
+
+/-! ### the mixed model restricted to fill_compute branches is the model `splitRunTagged` -/
+
+theorem processBufM_fc (buf : List α) : ∀ (act : List (Active σ α)),
+    processBufM buf (act.map MActive.fc) = ((processBuf buf act).1.map MActive.fc, (processBuf buf act).2)
+  | [] => rfl
+  | B :: rest => by
+    simp only [List.map_cons, processBufM, processBuf, processBufM_fc buf rest]
+    cases feedList (chainSink B.chain.acc B.chain.pre) B.st buf <;> rfl
+
+theorem finalM_fc (e : Bool) : ∀ (act : List (Active σ α)), finalM e (act.map MActive.fc) = finalCompute act
+  | [] => rfl
+  | B :: rest => by simp only [List.map_cons, finalM, finalCompute, finalM_fc e rest]
+
+theorem splitLoopM_fc : ∀ (bufs : List (List α)) (e : Bool) (act : List (Active σ α)),
+    splitLoopM e bufs (act.map MActive.fc) = splitLoop bufs act
+  | [], e, act => by simp only [splitLoopM, splitLoop, finalM_fc]
+  | buf :: bufs, e, act => by
+    simp only [splitLoopM, splitLoop, processBufM_fc, splitLoopM_fc bufs false]
+
+theorem initActiveM_fc : ∀ (cs : List (Chain σ α)) (k : Nat),
+    initActiveM k (cs.map Branch.fillCompute) = (initActive k cs).map MActive.fc
+  | [], _ => rfl
+  | c :: cs, k => by simp only [List.map_cons, initActiveM, initActive, Branch.activate, initActiveM_fc cs (k + 1)]
+
+end mixed
+
 end Lena.C05
